@@ -537,6 +537,7 @@ class Context:
         self.name = name
         self.timeout_ms = timeout_ms
         self.max_paths = max_paths
+        self.max_wall_s = 0          # 0 = unlimited; set by the runner
         self.exact = exact
         self.unwind = unwind
         self.solver = z3.Solver()
@@ -795,6 +796,9 @@ class Context:
         while self.work:
             if self.stats["paths"] >= self.max_paths:
                 raise PathBudget("more than %d paths in %s" % (self.max_paths, self.name))
+            if self.max_wall_s and time.time() - t0 > self.max_wall_s:
+                raise PathBudget("exploration of %s exceeded its %d s wall budget after %d paths"
+                                 % (self.name, self.max_wall_s, self.stats["paths"]))
             self.trail = self.work.pop()
             self.pos = 0
             self.pc = []
